@@ -507,6 +507,7 @@ def execute(plan):
     sim = core.new_sim(plan["seed"], simcfg)
     st = Stack(sim, cfg)
     rogues = [Rogue(a) for a in PEERS]
+    alt_rogues = {}
     op_exc = []
 
     if st.service is not None:
@@ -516,6 +517,12 @@ def execute(plan):
         k, t = op["k"], op["t"]
         if k == "sd":
             r = rogues[op["p"]]
+            if "port" in op:
+                # another SD endpoint on the same host: its own session counters
+                key = (op["p"], op["port"])
+                if key not in alt_rogues:
+                    alt_rogues[key] = Rogue((r.addr[0], op["port"]))
+                r = alt_rogues[key]
             if "sess" in op:
                 flag, sid = op["sess"]
                 flag = bool(flag)
